@@ -1,5 +1,6 @@
 import JominiModel.Proofs.TextTapeCutLex
 import JominiModel.Proofs.TextTapeStable
+import JominiModel.Proofs.TextTapeCutFields
 /-
 C19 (text tape parser): what the scalar scanners and the whole parser return on a truncated input.
 -/
@@ -172,5 +173,56 @@ example :
   ⟨⟨[.unquoted ⟨3, [97]⟩, .unquoted ⟨1, [98]⟩], false, by decide +kernel⟩,
    ⟨[.unquoted ⟨8, [97]⟩, .unquoted ⟨6, [98]⟩, .unquoted ⟨4, [99, 100]⟩, .unquoted ⟨1, [101]⟩], false,
      by decide +kernel⟩, by decide +kernel⟩
+
+/-
+C19 (text tape), field level.  Full statement: every completed top-level field of the truncated
+parse's tape equals the full parse's, and at most the last field differs or is absent.
+
+Proved for ALL inputs: both tapes are regular bodies (`parse_gr`); the truncated tape is
+`D ++ tail'` and the full tape is `D` (positions shifted) `++ tail`, where `D` is a sequence of
+complete top-level fields — all fields of the truncated tape that end inside the common token
+prefix of `C19_text_tape_common_prefix_partial` — and `tail'`, `tail` are again regular bodies.
+The first field of `tail'` (if any) is the one that reaches beyond the common prefix, i.e. the
+field being cut or the one whose last token may still change.
+Missing for the full statement: what lies behind that field in `tail'`.  It need not be the last
+field: for `a=b [[x] v]` cut at its end the split point is in front of `[[` (the one remaining
+iteration consumes the rest), so `a=b` is the field reaching beyond the common prefix (its `b`
+could still become a header) and `[[x] v]` is completed behind it — both also occur in the full
+tape.  Closing the gap needs the comparison of the LAST iterations (at most three, fewer than two
+bytes of lookahead after the first) of the truncated run with the full run on the lexeme being
+cut, state by state; the `tcut` correspondence op and its oracle cover it on the real code.
+-/
+theorem C19_text_tape_fields_partial (d : Bytes) (k : Nat) (T' T : List Tok) (b' b : Bool)
+    (hk : k ≤ d.length) (hbom : hasBom (d.take k) = hasBom d)
+    (h' : parse (d.take k) = .ok T' b') (h : parse d = .ok T b) :
+    ∃ (D tail' tail : List Tok) (x y : Bool) (m : Nat),
+      T' = D ++ tail' ∧ T = D.map (Tok.shift (d.length - k)) ++ tail ∧
+      Gr (.body false) D 0 ∧ Gr (.body x) tail' D.length ∧ Gr (.body y) tail D.length ∧
+      T.take m = (T'.take m).map (Tok.shift (d.length - k)) ∧ D.length ≤ m ∧
+      (tail' = [] ∨ tail'.head? = some .mixedContainer ∨ FirstBeyond tail' (m - D.length)) := by
+  obtain ⟨C, m, _, hc1, hc2, _⟩ := C19_text_tape_common_prefix_partial d k T' T b' b hk hbom h' h
+  have hcom : T.take m = (T'.take m).map (Tok.shift (d.length - k)) := by rw [hc1, hc2]
+  obtain ⟨x, hx⟩ := parse_gr _ T' b' h'
+  obtain ⟨y, hy⟩ := parse_gr _ T b h
+  obtain ⟨D, tail', rfl, hD, htail', hlen, hlast⟩ := hx.split x rfl m
+  -- `D` (shifted) is a prefix of the full tape
+  have hDT : T.take D.length = D.map (Tok.shift (d.length - k)) := by
+    have h1 : (T.take m).take D.length =
+        (((D ++ tail').take m).take D.length).map (Tok.shift (d.length - k)) := by
+      rw [hcom]; simp only [List.map_take]
+    rw [List.take_take, List.take_take, Nat.min_eq_left hlen] at h1
+    rw [h1, List.take_left']
+    rfl
+  have hTsplit : T = D.map (Tok.shift (d.length - k)) ++ T.drop D.length := by
+    rw [← hDT, List.take_append_drop]
+  refine ⟨D, tail', T.drop D.length, x, y, m, rfl, hTsplit, hD, ?_, ?_, hcom, hlen, hlast⟩
+  · simpa using htail'
+  · have := (hD.shift (d.length - k)).uncons_prefix rfl y (T.drop D.length) (by rw [← hTsplit]; exact hy)
+    simpa using this
+
+/-- the hypotheses are satisfiable (`a=b cd=e` cut after `a=b`, see the example above); the field
+structure of the truncated tape: `D = [a, b]`. -/
+example : Gr (.body false) [.unquoted ⟨3, [97]⟩, .unquoted ⟨1, [98]⟩] 0 :=
+  Gr.bfield (ops := []) (v := [.unquoted ⟨1, [98]⟩]) (rest := []) rfl (.inl rfl) (Gr.scal rfl) Gr.bnil
 
 end Jomini.TextTape
